@@ -715,7 +715,7 @@ def run_check(mod, tier="quick", seed=0, replay=None):
         ev["coverage"]["regenerated"] = {k: v for k, v in extra_info.items() if k != "problems"}
     if notes:
         ev["coverage"]["notes"] = notes
-    if not replay:
+    if not replay and os.environ.get("VERIF_KEEP_EVIDENCE") != "1":
         EVID.mkdir(exist_ok=True)
         (EVID / (pid + ".json")).write_text(json.dumps(ev, indent=1, default=str))
     log("[%s] %s tier done in %.1fs: %s" % (pid, tier, time.time() - t0, "OK" if exit_code == 0 else "VIOLATION"))
